@@ -258,7 +258,16 @@ def h19c_consumers(preset, nums):
                 return dist
             with patched(G, np=NPProxy()), patched(SBCM, PeriodicFinder=Finder), patched(SBCM.matid.geometry, get_distances=fake_get_distances):
                 SBCM.SBC().get_clusters(at, radii=radii)
-            rec.append(("sbc-radii", srec[0] if srec else None))
+                first = list(srec)
+                # the same SBC object used before on the same structure with other radii: this call's radii must still be used
+                del srec[:]
+                sbc = SBCM.SBC()
+                sbc.get_clusters(at, radii=np.asarray(G.get_radii("covalent", np.array(nums)), dtype=float) * 0.5)
+                del srec[:]
+                sbc.get_clusters(at, radii=radii)
+                second = list(srec)
+            rec.append(("sbc-radii", first[0] if first else None))
+            rec.append(("sbc-radii-reused-object", second[0] if second else None))
         table = np.asarray(G.get_radii(preset, np.array(nums)), dtype=float)
         if np.isnan(table).any():
             e.sample({"preset": preset, "numbers": nums, "skipped": "preset has no radius for one of the elements (NaN)"})
@@ -297,8 +306,10 @@ def h19c_consumers(preset, nums):
         for x, y in zip(a, b):
             e.post(f"identical {x[0]} call for preset and custom array", same(x, y), cex)
         # and the SBC radii are exactly the per-atom array
-        sb = b[-1][1]
+        sb = b[-2][1]
         e.post("SBC hands the custom per-atom array on unchanged", same(sb, table) if sb is not None else False, cex)
+        sb2 = b[-1][1]
+        e.post("an SBC object used before with other radii evaluates the distances with the radii of this call", same(sb2, table) if sb2 is not None else False, cex)
         e.sample({"preset": preset, "numbers": nums})
     return fn
 
@@ -319,15 +330,22 @@ def conc_consumers(preset, nums, pos, thr):
     orig = SBCM.matid.geometry.get_distances
 
     def spy(system, radii="covalent"):
-        rec.append(np.array(radii, dtype=float))
+        rec.append(np.array(radii, dtype=float) if not isinstance(radii, str) else np.asarray(G.get_radii(radii, system.get_atomic_numbers()), dtype=float))
         return orig(system, radii)
     SBCM.matid.geometry.get_distances = spy
     try:
         SBCM.SBC().get_clusters(at, radii=table.copy())
+        ok2 = bool(rec) and rec[0].shape == table.shape and np.allclose(rec[0], table)
+        sbc = SBCM.SBC()
+        sbc.get_clusters(at, radii=np.asarray(G.get_radii("covalent", np.array(nums)), dtype=float) * 0.5)
+        del rec[:]
+        for r_ in (preset, table.copy()):
+            sbc.get_clusters(at, radii=r_)
+        ok3 = len(rec) == 2 and all(r_.shape == table.shape and np.allclose(r_, table) for r_ in rec)
     finally:
         SBCM.matid.geometry.get_distances = orig
-    ok2 = bool(rec) and rec[0].shape == table.shape and np.allclose(rec[0], table)
-    return ok and ok2, ("dimensionality/distances differ between preset and custom array" if not ok else "") + (" SBC does not use the custom per-atom array unchanged" if not ok2 else "")
+    return ok and ok2 and ok3, ("dimensionality/distances differ between preset and custom array" if not ok else "") + (" SBC does not use the custom per-atom array unchanged" if not ok2 else "") \
+        + (" an SBC object used before with other radii does not evaluate the distances with the radii of the call" if not ok3 else "")
 
 
 # ------------------------------------------------------------------------------- driver
